@@ -8,6 +8,11 @@ Four passes (all on the real dclab code, datasets are RTDC_Dict instances):
  fake    correspondence  RTDCBase.get_kde_scatter + kde_methods.ignore_nan_inf
                          + _apply_scale with an exact stand-in estimator vs
                          Model/C12.v (scatter_flat)
+ warm    property oracle  a few datasets of 1200-3000 events, 2-4 filter
+                         states each (interior exclusions, partly of equal
+                         count) analysed in ONE process WITHOUT clearing
+                         dclab's memo cache: must equal the fresh computation
+                         on the selected events and the reference estimators
  adjust  correspondence  statsmodels _adjust_shape (how kde_multivariate's
                          positions reach the estimator) vs adjust_shape
  perc    correspondence  np.percentile / np.nanpercentile and
@@ -42,7 +47,9 @@ RULE = ("datasets of 0..150 events with 2-3 float features (dyadic values "
         "statistics method x feature, every KDE type x linear/log scale x "
         "implicit/explicit positions, contour grids with default and "
         "explicit accuracies, quantile levels, downsampling sizes around "
-        "the selected count, tsv export. A case is non-trivial when the "
+        "the selected count, tsv export; plus a few datasets of 1200-3000 "
+        "events with sequences of 2-4 filter states analysed with a warm "
+        "memo cache. A case is non-trivial when the "
         "filter excludes at least one and selects at least one event; "
         "distinct = different (data, filter, parameters)")
 TRUSTED_BASE = [
@@ -72,7 +79,9 @@ TRUSTED_BASE = [
     "mask = ds.filter.all is an input of the model; how it is computed from "
     "the filter settings is property C03; downsample_grid itself is C16; "
     "the memoisation of the kde functions (dclab/cached.py) is C17 - the "
-    "cache is cleared before every evaluated dataset",
+    "cache is cleared before every evaluated dataset of the meta pass; the "
+    "warm-cache pass analyses sequences of filter states of datasets with "
+    "> 1000 events without clearing it",
     "kde_multivariate: statsmodels' _adjust_shape is modelled and compared "
     "exactly (adjust_flat); that kde_multivariate hands it an (N,2) array "
     "(fix e62c3b0) is established only by the differential oracle",
@@ -97,6 +106,7 @@ HUGE = 2 ** 70            # in units of 1/8; 2^67 as a float, exact
 # cases per pass: meta, stats, fake, perc, quant
 SIZES = {"quick": (96, 240, 240, 240, 120),
          "thorough": (1500, 3000, 3000, 3000, 1500)}
+N_WARM = {"quick": 6, "thorough": 48}
 
 HEADER = ("From Coq Require Import ZArith List.\nImport ListNotations.\n"
           "From Verif Require Import Model.C12.\n")
@@ -905,6 +915,123 @@ def meta_worker(args):
 
 
 # --------------------------------------------------------------------------
+# warm-cache pass: several filter states of ONE large dataset analysed in one
+# process without clearing dclab's memo cache (dclab/cached.py) in between
+# --------------------------------------------------------------------------
+def gen_warm_case(rng):
+    n = rng.choice([1200, 1500, 2000, 3000])
+    w = rng.randint(30, 80)
+    pop = rng.randint(200, n - 200 - w)          # a second population
+    states = [[[pop, pop + w]]]                   # exclude it first ...
+    for _ in range(rng.randint(1, 3)):
+        a = rng.randint(10, n - 10 - w)
+        st = [[a, a + w]]                         # ... same count elsewhere
+        if rng.random() < .4:                     # ... or another count
+            b = rng.randint(10, n - 40)
+            st.append([b, b + rng.randint(1, 25)])
+        states.append(st)
+    rng.shuffle(states)
+    return dict(kind="warm", n=n, seed=rng.randrange(1 << 30), pop=[pop, w],
+                states=states, down=rng.choice([100, 300]),
+                scales=rng.choice([["linear", "linear"], ["linear", "linear"],
+                                   ["log", "linear"]]))
+
+
+def warm_data(case):
+    import random
+    import numpy as np
+    rng = random.Random(case["seed"])
+    n = case["n"]
+    x = np.array([rng.gauss(100, 10) for _ in range(n)])
+    y = np.array([rng.gauss(0.1, 0.01) for _ in range(n)])
+    p, w = case["pop"]
+    x[p:p + w] = [rng.gauss(160, 2) for _ in range(w)]
+    y[p:p + w] = [rng.gauss(0.16, 0.002) for _ in range(w)]
+    # the extremes are the first and the last event (always selected): the
+    # contour grid is the same for every filter state
+    x[0], y[0] = 40.0, 0.04
+    x[-1], y[-1] = 200.0, 0.2
+    return x, y
+
+
+def warm_analyses(ds, case):
+    """the cached analysis entry points -> dict key -> guarded result"""
+    import numpy as np
+    xs, ys = case["scales"]
+    px = np.linspace(60, 190, 14)
+    py = np.linspace(0.06, 0.19, 14)
+    out = {}
+    for kt in ("histogram", "gauss", "multivariate"):
+        kw = dict(xax="area_um", yax="deform", kde_type=kt, xscale=xs,
+                  yscale=ys)
+        out["scatter/" + kt] = guarded(lambda: ds.get_kde_scatter(**kw))
+        out["scatterpos/" + kt] = guarded(lambda: ds.get_kde_scatter(
+            positions=[px.copy(), py.copy()], **kw))
+        out["contour/" + kt] = guarded(lambda: ds.get_kde_contour(
+            xacc=(.2 if xs == "log" else 12), yacc=.012, **kw))
+    out["down"] = guarded(lambda: ds.get_downsampled_scatter(
+        xax="area_um", yax="deform", downsample=case["down"], xscale=xs,
+        yscale=ys))
+    return out, (px, py)
+
+
+def warm_worker(args):
+    import warnings
+    warnings.simplefilter("ignore")
+    case, scratch = args
+    import numpy as np
+    import dclab
+    from dclab.cached import Cache
+    x, y = warm_data(case)
+    n = case["n"]
+    ds = dclab.new_dataset({"area_um": x, "deform": y})
+    Cache.clear_cache()
+    warm = []
+    masks = []
+    for st in case["states"]:
+        ds.filter.manual[:] = True
+        for a, b in st:
+            ds.filter.manual[a:b] = False
+        ds.apply_filter()
+        mask = np.array(ds.filter.all, dtype=bool).copy()
+        masks.append(mask)
+        warm.append(warm_analyses(ds, case)[0])          # cache stays warm
+    fails = []
+    xs, ys = case["scales"]
+    for k, (st, mask, ow) in enumerate(zip(case["states"], masks, warm)):
+        # the same computation, freshly, on the selected events only
+        Cache.clear_cache()
+        dsr = dclab.new_dataset({"area_um": x[mask], "deform": y[mask]})
+        dsr.apply_filter()
+        of, (px, py) = warm_analyses(dsr, case)
+        for f in compare_obs(ow, of, "filtered (state %d of a sequence, "
+                             "cache not cleared)" % k,
+                             "restricted (fresh cache)"):
+            fails.append(f)
+        # reference estimator at the explicit positions
+        ex, ey = sc(x[mask], xs), sc(y[mask], ys)
+        ox, oy = sc(px, xs), sc(py, ys)
+        for kt in ("histogram", "gauss", "multivariate"):
+            r = ow["scatterpos/" + kt]
+            if r[0] != "ok":
+                fails.append("state %d scatterpos/%s raised %s" % (k, kt,
+                                                                   r[1]))
+                continue
+            with np.errstate(all="ignore"):
+                ref = ref_density(kt, ex, ey, ox, oy)
+                peak = float(np.max(np.abs(ref_density(
+                    kt, ex, ey, ex[::7], ey[::7]))))
+            dd = dens_close(kt, r[1], ref, peak)
+            if dd:
+                fails.append("state %d (excluded %s) scatterpos/%s vs "
+                             "reference on the selected events: %s" % (
+                                 k, st, kt, dd))
+    Cache.clear_cache()
+    return dict(fails=fails, counts={"warm-states": len(case["states"])},
+                nontrivial=True, m=int(masks[-1].sum()))
+
+
+# --------------------------------------------------------------------------
 # correspondence: statistics
 # --------------------------------------------------------------------------
 def gen_stats_case(rng):
@@ -1263,17 +1390,18 @@ def classify(case, fails):
     return None
 
 
-def retry_dead(run, cases, results):
+def retry_dead(run, cases, results, worker=None):
     """cases whose worker process died (out-of-memory killer, crash in native
     code): once more in a fresh pool, then one process per case; a case that
     kills its own process again is an oracle failure"""
+    worker = worker or meta_worker
     todo = [i for i, r in enumerate(results) if r is None]
     if not todo:
         return
     run.count("worker-died-retried", len(todo))
     with concurrent.futures.ProcessPoolExecutor(
             max_workers=common.NCPU) as ex:
-        futs = {i: ex.submit(meta_worker, (cases[i], run.scratch))
+        futs = {i: ex.submit(worker, (cases[i], run.scratch))
                 for i in todo}
         for i, f in futs.items():
             try:
@@ -1283,7 +1411,7 @@ def retry_dead(run, cases, results):
     for i in [i for i, r in enumerate(results) if r is None]:
         try:
             with concurrent.futures.ProcessPoolExecutor(max_workers=1) as ex:
-                results[i] = ex.submit(meta_worker,
+                results[i] = ex.submit(worker,
                                        (cases[i], run.scratch)).result()
         except Exception as e:
             results[i] = dict(
@@ -1327,6 +1455,9 @@ def run(run):
     quant_cases = [c for c in corpus if c.get("kind") == "quant"]
     while len(quant_cases) < n_quant:
         quant_cases.append(gen_quant_case(run.rng))
+    warm_cases = [c for c in corpus if c.get("kind") == "warm"]
+    while len(warm_cases) < N_WARM["thorough" if run.thorough else "quick"]:
+        warm_cases.append(gen_warm_case(run.rng))
     meta_cases = [c for c in corpus if c.get("kind") == "meta"]
     while len(meta_cases) < n_meta:
         meta_cases.append(gen_meta_case(run.rng,
@@ -1336,6 +1467,8 @@ def run(run):
     # imported here) while the correspondence passes are evaluated
     with concurrent.futures.ProcessPoolExecutor(
             max_workers=common.NCPU) as ex:
+        wfuts = [ex.submit(warm_worker, (c, run.scratch))
+                 for c in warm_cases]              # the long ones first
         futs = [ex.submit(meta_worker, (c, run.scratch)) for c in meta_cases]
         s_impl = [stats_impl(c) for c in stats_cases]
         f_impl = [fake_impl(c) for c in fake_cases]
@@ -1369,8 +1502,25 @@ def run(run):
                 results.append(f.result())
             except Exception:       # BrokenProcessPool: a worker died
                 results.append(None)
+        wres = []
+        for f in wfuts:
+            try:
+                wres.append(f.result())
+            except Exception:
+                wres.append(None)
     retry_dead(run, meta_cases, results)
     meta_collect(run, meta_cases, results)
+    retry_dead(run, warm_cases, wres, worker=warm_worker)
+    for c, r in zip(warm_cases, wres):
+        run.record_case(c, True, sample=False)
+        run.count("warm-cache-case")
+        run.count("warm-states", r["counts"].get("warm-states", 0))
+        run.count("warm:n=%d" % c["n"])
+        if r["fails"]:
+            desc = "; ".join(r["fails"][:4])
+            if len(r["fails"]) > 4:
+                desc += "; ... (%d in total)" % len(r["fails"])
+            run.oracle_failure(c, desc, None)
 
     for c, (coq, impl), m in zip(stats_cases, s_impl, s_model):
         run.corr_checked += 1
@@ -1409,6 +1559,8 @@ def check_case(case, scratch):
     kind = case.get("kind")
     if kind == "meta":
         return meta_worker((case, scratch))["fails"]
+    if kind == "warm":
+        return warm_worker((case, scratch))["fails"]
     if kind == "stats":
         coq, impl = stats_impl(case)
         m = common.coq_map(scratch, "c12rs", HEADER, "stats_flat", [coq])[0]
